@@ -28,6 +28,8 @@ def check_one(m: t.Any, suffixes: t.List[bytes]) -> t.Optional[t.Tuple[str, str]
         if rest != sfx:
             return ("consumed", f"decoder left {len(rest)} bytes, {len(sfx)} expected (suffix {sfx.hex()})")
         why = K.messages_equal(m, m2)
+        if why and why.startswith("inconsistent-value:"):
+            return (why.split(": ")[0], why.split(": ", 1)[1])
         if why:
             return (f"differs:{type(m).__name__}:{K.strip_idx(why)}", f"decoded message differs at {why}")
         try:
